@@ -121,6 +121,14 @@ def _l4_pipeline(strategy: int, ui: int, qi: int, li: int, ii: int, bi: int) -> 
     return S.pipeline_clause(FakeRead, QueryNameFlagger, pick([NLAIII_384w_c8_u3, CELSeq2_c8_u6], strategy), ui, qi, li, ii, bi) is None
 
 
+def _l5_flagger_sequence(i0: int, i1: int, i2: int) -> bool:
+    """
+    pre: 0 <= i0 <= 2 and 0 <= i1 <= 2 and 0 <= i2 <= 2
+    post: _
+    """
+    return S.flagger_sequence_clause(FakeRead, QueryNameFlagger, [i0, i1, i2]) is None
+
+
 def _l3_guard(n: int) -> bool:
     """
     pre: 0 <= n <= 300
@@ -138,6 +146,7 @@ LEMMAS = [
          cases={'quick': [dict(id=S.FIELDS[f], pre=['field == %d' % f]) for f in range(7)]}),
     dict(name='L4_pipeline_pools', fn='_l4_pipeline', engine='E1', timeout=_T, replay='replay.C04:replay',
          cases={'quick': [dict(id='s%d_u%d' % (st, u), pre=['strategy == %d' % st, 'ui == %d' % u]) for st in (0, 1) for u in (0, 1, 2)]}),
+    dict(name='L5_flagger_sequence', fn='_l5_flagger_sequence', engine='E1', timeout=_T, replay='replay.C04:replay'),
     dict(name='L3_length_guard', fn='_l3_guard', engine='E1', timeout=_T, replay='replay.C04:replay',
          cases={'quick': [dict(id='lo', pre=['n <= 150']), dict(id='hi', pre=['n > 150'])]}),
 ]
@@ -150,7 +159,7 @@ PROPERTY = dict(
     bounds=dict(codec='E2: every integer code point >= 33 (unbounded); E1: every 1-char (thorough 2-char) string over 33..126',
                 roundtrip='L2: one field (RX, BC, bc, LY, MX, aA/aa, rS) takes every value of a pool of 33 strings (all 1-2 character strings over {a,Z,0,-,_}, N, a 10-mer, a 40-mer) selected by a symbolic index, x 5 cell indices x 4 encoded UMI-quality strings; '
                           'L4: real NLAIII384C8U3 / CS2C8U6 strategies end to end with UMI / quality / library / index values from concrete pools of 3 selected by symbolic indices, 5 cell indices; symbolic strings through the ;/: header split proved out of reach (one path > 14 s, see DESIGN 6)',
-                guard='library length 0..300'),
+                guard='library length 0..300', sequence='every sequence of 3 reads drawn from {CELSeq2 read with UMI, ScarTrace read without UMI, bulk read} through ONE flagger instance'),
     outside=['pysam storage of tags / query names (replay only)', 'library names outside the header-safe alphabet', 'dual (+) sequencing indices',
              'headers of the short 7-field and already-demultiplexed styles (C01 covers parsing them)'],
     assumptions=['StubBarcodeParser accepts and returns the barcode unchanged (C03 proves the real parser)',
